@@ -116,6 +116,9 @@ META = dict(
 META["rule"] += (
     " " + 'Added after the second round of seeded changes: dense graphs of 140/220/300 nodes (density >= 0.97, undirected and directed) on which degrees, clustering, transitivity, neighbour degrees, matching index, the four motif clusterings and their n.s.i. relatives are compared with int64 matrix expressions (counts beyond 16-bit ranges).')
 
+META["rule"] += (
+    " " + 'Added after the third round: strengths and attribute read-back with link weights of either sign; the adjacency handed over as dense int8/int64/bool/float, nested list or scipy csr/csc/coo/lil of bool/int8/uint8/int64/float; a third of the objects have a past (built with non-uniform node weights, n.s.i. measures queried, weights reset to the default); hub graphs (degree 230 .. 2100 with small cliques among the neighbours) for the degree-normalised measures.')
+
 REFUSALS = ("NotImplementedError",)
 
 
